@@ -78,6 +78,17 @@ def tuning(ctx, n_cases):
             ep = nap.IntervalSet(np.array(est, float), np.array(een, float))
         if c % 2 == 0:
             mm, lo, hi = None, None, None
+        elif c % 8 == 3:
+            # an explicit bound that is exactly 0 (a legal, falsy number), every feature value strictly inside
+            fv = [max(v, 1) for v in fv]
+            feat = nap.Tsd(np.array(ft, dtype=float), np.array(fv, dtype=float), time_support=nap.IntervalSet(np.array(st, float), np.array(en, float)))
+            lo, hi = 0, 16
+            mm = (float(lo), float(hi))
+        elif c % 8 == 7:
+            fv = [v - 9 for v in fv]        # -9..-1, upper bound exactly 0
+            feat = nap.Tsd(np.array(ft, dtype=float), np.array(fv, dtype=float), time_support=nap.IntervalSet(np.array(st, float), np.array(en, float)))
+            lo, hi = -16, 0
+            mm = (float(lo), float(hi))
         else:
             lo, hi = -8, 16
             mm = (float(lo), float(hi))
@@ -205,10 +216,12 @@ def decoding(ctx, n_cases):
         tcv = npr.uniform(0.2, 6.0, size=(nb, nu))
         tcs = pd.DataFrame(index=centres, data=tcv, columns=keys)
         # the decoding epoch is the whole recording or only part of it; the occupancy prior is that of the feature passed
-        ep = [nap.IntervalSet(0.0, 20.0), nap.IntervalSet([2.0, 12.0], [8.0, 18.0]), nap.IntervalSet(4.0, 10.0)][(c // 2) % 3]
+        bs = rng.choice([0.5, 1.0, 2.0])
+        # ... or many short trials of exactly one bin each, far apart (the spacing of the bin centres is then NOT the bin size)
+        ep = [nap.IntervalSet(0.0, 20.0), nap.IntervalSet([2.0, 12.0], [8.0, 18.0]), nap.IntervalSet(4.0, 10.0),
+              nap.IntervalSet(np.arange(0.0, 16.0, 4.0), np.arange(0.0, 16.0, 4.0) + bs)][(c // 2) % 4]
         units = {k: np.sort(npr.uniform(0, 20, size=rng.randint(0, 25))) for k in keys}
         grp = nap.TsGroup({k: nap.Ts(v) for k, v in units.items()}, time_support=nap.IntervalSet(0.0, 20.0))
-        bs = rng.choice([0.5, 1.0, 2.0])
         unit, f = rng.choice([("s", 1.0), ("ms", 1e3), ("us", 1e6)])
         with_feat = c % 2 == 0
         feat = nap.Tsd(np.arange(0, 20, 0.5), npr.uniform(0, nb, size=40)) if with_feat else None
@@ -276,5 +289,5 @@ def run(ctx):
 
 
 def replay(ctx, rec):
-    print("re-run `./check C17 quick` with VERIF_SEED=%s; failing input: %s" % (rec.get("seed"), rec.get("input")))
-    return False
+    print("re-executing the recorded run of `./check C17 quick` with VERIF_SEED=%s; failing input: %s" % (rec.get("seed"), rec.get("input")))
+    return None
